@@ -172,6 +172,18 @@ class SimDB:
             st.grace_period = args.get("grace_period")
             st.failed_trial_callback = args.get("failed_trial_callback")
         else:
+            self.sim.atomic_depth += 1  # engine set-up is not part of the simulated execution
+            try:
+                st = self._make(RDBStorage, args)
+            finally:
+                self.sim.atomic_depth -= 1
+            _pool.append(st)
+        self._next += 1
+        self.storages.append(st)
+        return st
+
+    def _make(self, RDBStorage: Any, args: dict) -> Any:
+        if True:
             st = RDBStorage(
                 self.url(),
                 engine_kwargs={"connect_args": {"factory": SimConnection, "timeout": 0, "check_same_thread": False}},
@@ -183,14 +195,7 @@ class SimDB:
             with st.engine.connect():
                 pass
             st.engine.dispose()  # later connections are created by (and belong to) tasks
-            _pool.append(st)
-        self._next += 1
-        if proc is not None:
-            # connections are created lazily by whichever task needs one; they belong to
-            # the process of the task that creates them (SimConnection.__init__)
-            pass
-        self.storages.append(st)
-        return st
+            return st
 
     def close(self) -> None:
         for st in self.storages:
